@@ -465,6 +465,14 @@ fn dup_frame() -> impl Strategy<Value = AFrame> {
         })
 }
 
+/// 16-40 lines over a tiny key/value pool (adjacent identical lines are common), for removal-heavy
+/// operation sequences
+fn big_dup_frame() -> impl Strategy<Value = AFrame> {
+    prop::collection::vec((prop_oneof![Just("a"), Just("b"), Just("Genre"), Just("A")], prop_oneof![Just("x"), Just("y"), Just("")]), 16..=40usize).prop_map(|fields| AFrame {
+        items: fields.into_iter().map(|(k, v)| Item::Field(k.to_string(), v.to_string())).collect(),
+    })
+}
+
 fn end() -> impl Strategy<Value = End> {
     prop_oneof![Just(End::Front), Just(End::Back)]
 }
@@ -491,17 +499,21 @@ pub fn property(_tier: Tier) -> Property {
         parts: vec![
             Box::new(RandomPart {
                 name: "frame_ops",
-                rule: "proptest: frame with 0-12 fields from a small key pool (duplicates, keys differing only in case) +- binary, obtained through the real parser; up to 30 operations find/get/take_binary/binary/has_binary/fields_len/is_empty/partial fields() walks from both ends/(&frame).into_iter()/clone, then into_iter() with mixed next/next_back/take_binary and a drain; every return value compared with a Vec<Option<(k,v)>> + Option<bytes> model. non-trivial = a removal followed by iteration from both ends; distinct by serialised case",
+                rule: "proptest: frame with 0-12 fields from a small key pool (duplicates, keys differing only in case) +- binary, or 16-40 lines over a tiny key/value pool with 10-80 mostly-get operations, obtained through the real parser; up to 30 operations find/get/take_binary/binary/has_binary/fields_len/is_empty/partial fields() walks from both ends/(&frame).into_iter()/clone, then into_iter() with mixed next/next_back/take_binary and a drain; every return value compared with a Vec<Option<(k,v)>> + Option<bytes> model. non-trivial = a removal followed by iteration from both ends; distinct by serialised case",
                 cases: (100_000, 30_000_000),
                 strategy: Box::new(|_t| {
-                    (
-                        dup_frame(),
-                        prop::collection::vec(fop(), 0..30usize),
+                    prop_oneof![
+                        5 => (dup_frame(), prop::collection::vec(fop(), 0..30usize)).boxed(),
+                        1 => (big_dup_frame(), prop::collection::vec(prop_oneof![6 => any::<u16>().prop_map(FOp::Get), 2 => fop()], 10..80usize)).boxed(),
+                    ]
+                    .prop_flat_map(|(frame, ops)| (
+                        Just(frame),
+                        Just(ops),
                         prop::collection::vec(
                             prop_oneof![4 => Just(OwnedStep::Next), 4 => Just(OwnedStep::NextBack), 1 => Just(OwnedStep::TakeBinary)],
                             0..14usize,
                         ),
-                    )
+                    ))
                         .prop_map(|(frame, ops, owned)| FrameCase { frame, ops, owned })
                         .boxed()
                 }),
